@@ -268,7 +268,7 @@ func toUint8(field sdk.Val) (*uint8, error) {
 	if err != nil {
 		return nil, err
 	}
-	if value.Cmp(big.NewInt(math.MaxUint8)) < 0 {
+	if value.Sign() >= 0 && value.Cmp(big.NewInt(math.MaxUint8)) <= 0 {
 		v := uint8(value.Uint64())
 		return &v, nil
 	}
@@ -280,7 +280,7 @@ func toUint16(field sdk.Val) (*uint16, error) {
 	if err != nil {
 		return nil, err
 	}
-	if value.Cmp(big.NewInt(math.MaxUint16)) < 0 {
+	if value.Sign() >= 0 && value.Cmp(big.NewInt(math.MaxUint16)) <= 0 {
 		v := uint16(value.Uint64())
 		return &v, nil
 	}
